@@ -1,81 +1,9 @@
 import Driver.Common
 import Scion.Model.Wire
+import Scion.Util.WireText
 /-! Driver for the SCION header codec model (engine `wire`, property C18). -/
 namespace Driver.Wire
-open Scion.Wire Scion.Util Scion
-
-def b2s (b : Bool) : String := if b then "1" else "0"
-
-def infoStr (i : Info) : String := s!"{b2s i.peer}.{b2s i.consDir}.{i.segID}.{i.ts}"
-def hopStr (h : Hop) : String :=
-  s!"{b2s h.inAlert}.{b2s h.egAlert}.{h.expTime}.{h.consIn}.{h.consEg}.{hexOf h.mac}"
-
-def pathStr : PathV → String
-  | .empty => "empty"
-  | .scion m body => s!"scion {PathMeta.encode m} {hexOf body}"
-  | .onehop i h1 h2 => s!"onehop {infoStr i} {hopStr h1} {hopStr h2}"
-  | .epic ts ctr p l m body => s!"epic {ts} {ctr} {hexOf p} {hexOf l} {PathMeta.encode m} {hexOf body}"
-
-def hdrStr (h : Hdr) : String :=
-  let c := h.cmn
-  s!"{c.version} {c.tc} {c.flowID} {c.nextHdr} {c.hdrLen} {c.payloadLen} {c.pathType} " ++
-  s!"{c.dstType} {c.srcType} {h.dstIA} {h.srcIA} {hexOf h.rawDst} {hexOf h.rawSrc} {pathStr h.path}"
-
-def errStr (e : Err) : String :=
-  match e with
-  | .panic => "PANIC-MODEL"
-  | e => s!"err {if e.truncated then 1 else 0}"
-
-/-! parsing of the positional value dump (for `ser`) -/
-
-def splitDots (s : String) : List String := s.splitOn "."
-
-def parseBool : String → Option Bool
-  | "1" => some true | "0" => some false | _ => none
-
-def parseInfo (s : String) : Option Info :=
-  match splitDots s with
-  | [p, c, sid, ts] =>
-    match parseBool p, parseBool c, sid.toNat?, ts.toNat? with
-    | some p, some c, some sid, some ts => some ⟨p, c, sid, ts⟩
-    | _, _, _, _ => none
-  | _ => none
-
-def parseHop (s : String) : Option Hop :=
-  match splitDots s with
-  | [i, e, x, ci, ce, mac] =>
-    match parseBool i, parseBool e, x.toNat?, ci.toNat?, ce.toNat?, unhex mac with
-    | some i, some e, some x, some ci, some ce, some mac => some ⟨i, e, x, ci, ce, mac⟩
-    | _, _, _, _, _, _ => none
-  | _ => none
-
-def parsePath : List String → Option PathV
-  | ["empty"] => some .empty
-  | ["scion", w, body] =>
-    match w.toNat?, unhex body with
-    | some w, some b => some (.scion (PathMeta.decode w) b)
-    | _, _ => none
-  | ["onehop", i, h1, h2] =>
-    match parseInfo i, parseHop h1, parseHop h2 with
-    | some i, some h1, some h2 => some (.onehop i h1 h2)
-    | _, _, _ => none
-  | ["epic", ts, ctr, p, l, w, body] =>
-    match ts.toNat?, ctr.toNat?, unhex p, unhex l, w.toNat?, unhex body with
-    | some ts, some ctr, some p, some l, some w, some b => some (.epic ts ctr p l (PathMeta.decode w) b)
-    | _, _, _, _, _, _ => none
-  | _ => none
-
-def parseHdr : List String → Option Hdr
-  | v :: tc :: fl :: nh :: hl :: pl :: pt :: dt :: st :: dia :: sia :: dst :: src :: path =>
-    match v.toNat?, tc.toNat?, fl.toNat?, nh.toNat?, hl.toNat?, pl.toNat?, pt.toNat?, dt.toNat?,
-      st.toNat? with
-    | some v, some tc, some fl, some nh, some hl, some pl, some pt, some dt, some st =>
-      match dia.toNat?, sia.toNat?, unhex dst, unhex src, parsePath path with
-      | some dia, some sia, some dst, some src, some p =>
-        some ⟨⟨v, tc, fl, nh, hl, pl, pt, dt, st⟩, dia, sia, dst, src, p⟩
-      | _, _, _, _, _ => none
-    | _, _, _, _, _, _, _, _, _ => none
-  | _ => none
+open Scion.Wire Scion.Util Scion Scion.WireText
 
 def handle : List String → String
   | ["dec", hex] =>
